@@ -916,7 +916,7 @@ theorem pass_toks (t : List (String × String)) (m : String × String) (g : Good
 
 /-- a further pass extends the set of substituted names -/
 theorem subst_compose (t P : List (String × String)) (m : String × String)
-    XX
+    (hP : ∀ m' ∈ P, GoodMacro t m') (_hPt : ∀ m' ∈ P, m' ∈ t) (hm : m ∈ t) :
     ∀ (ts : List Tok), substToks [m] (substToks P ts) = substToks (P ++ [m]) ts := by
   intro ts
   induction ts with
